@@ -122,6 +122,7 @@ int main() {
       case 22: o << (unsigned long long)divRoundUp<size_t>((size_t)ua[0], (size_t)ua[1]); break;
       case 23: o << (long long)divRoundUp<int64_t>((int64_t)a[0], (int64_t)a[1]); break;
       case 24: o << (long long)clamp<int>((int)a[0], (int)a[1], (int)a[2]); break;
+      case 29:     // (same observation as 25; the model side evaluates the REGENERATED engine)
       case 25: {   // raw pcg32 stream: n outputs after seed(seed, sequence)
         pcg32 g; g.seed((int)a[0], (int)a[1]);
         for (long long i = 0; i < a[2]; i++) { if (i) o << ","; o << (unsigned long long)g(); }
